@@ -160,6 +160,53 @@ inductive Val where
   deriving Repr, Inhabited
 
 mutual
+/-- structural equality (used by the driver to compare decoded trees) -/
+def SV.beq : SV → SV → Bool
+  | .int a, .int b => a == b
+  | .float a, .float b => a == b
+  | .bool a, .bool b => a == b
+  | .str a, .str b => a == b
+  | .null, .null => true
+  | .ts a, .ts b => a == b
+  | .dur a, .dur b => a == b
+  | .arr a, .arr b => SV.beqL a b
+  | .map a, .map b => SV.beqM a b
+  | _, _ => false
+def SV.beqL : List SV → List SV → Bool
+  | [], [] => true
+  | a :: as, b :: bs => SV.beq a b && SV.beqL as bs
+  | _, _ => false
+def SV.beqM : List (String × SV) → List (String × SV) → Bool
+  | [], [] => true
+  | (k, a) :: as, (l, b) :: bs => k == l && SV.beq a b && SV.beqM as bs
+  | _, _ => false
+end
+instance : BEq SV := ⟨SV.beq⟩
+
+mutual
+def Val.beq : Val → Val → Bool
+  | .int a, .int b => a == b
+  | .float a, .float b => a == b
+  | .bool a, .bool b => a == b
+  | .str a, .str b => a == b
+  | .null, .null => true
+  | .ts a, .ts b => a == b
+  | .dur a, .dur b => a == b
+  | .arr a, .arr b => Val.beqL a b
+  | .map a, .map b => Val.beqM a b
+  | _, _ => false
+def Val.beqL : List Val → List Val → Bool
+  | [], [] => true
+  | a :: as, b :: bs => Val.beq a b && Val.beqL as bs
+  | _, _ => false
+def Val.beqM : List (String × Val) → List (String × Val) → Bool
+  | [], [] => true
+  | (k, a) :: as, (l, b) :: bs => k == l && Val.beq a b && Val.beqM as bs
+  | _, _ => false
+end
+instance : BEq Val := ⟨Val.beq⟩
+
+mutual
 /-- `value_to_serializable` -/
 def v2s : Val → SV
   | .int i => .int i
@@ -281,7 +328,7 @@ structure Event where
   etype : String
   ts : Int
   data : List (String × Val)
-  deriving Repr, Inhabited
+  deriving Repr, Inhabited, BEq
 
 /-- `persistence::SerializableEvent`; `subNs` is the field `timestamp_subms_ns` added by the repair -/
 structure SerEvent where
@@ -289,7 +336,7 @@ structure SerEvent where
   tsMs : Int
   subNs : Nat
   fields : List (String × SV)
-  deriving Repr, Inhabited
+  deriving Repr, Inhabited, BEq
 
 /-- `DateTime::timestamp_millis` (floor) -/
 def msOf (t : Int) : Int := t / 1000000
@@ -330,18 +377,22 @@ structure PartWinCkpt where
   windowStartMs : Option Int
   /-- added by the repair of the sliding count window (`#[serde(default)]`) -/
   eventsSinceEmit : Option Nat
-  deriving Repr, Inhabited
+  /-- `window_start_subms_ns`, added by the repair of the millisecond truncation -/
+  windowStartSub : Nat
+  deriving Repr, Inhabited, BEq
 
 def encPWC (p : PartWinCkpt) : Json :=
   .obj [("events", encList encSE p.events), ("window_start_ms", encOpt .int p.windowStartMs),
-        ("events_since_emit", encOpt (fun n : Nat => .int n) p.eventsSinceEmit)]
+        ("events_since_emit", encOpt (fun n : Nat => .int n) p.eventsSinceEmit),
+        ("window_start_subms_ns", .int p.windowStartSub)]
 
 def decPWC : Json → Option PartWinCkpt
   | .obj kvs => do
     let ev ← req kvs "events" (decList decSE)
     let ws ← optF kvs "window_start_ms" decInt
     let se ← optF kvs "events_since_emit" decNat
-    pure { events := ev, windowStartMs := ws, eventsSinceEmit := se }
+    let wsub ← dflt kvs "window_start_subms_ns" decNat 0
+    pure { events := ev, windowStartMs := ws, eventsSinceEmit := se, windowStartSub := wsub }
   | _ => none
 
 /-- `WindowCheckpoint` -/
@@ -352,12 +403,16 @@ structure WindowCkpt where
   partitions : List (String × PartWinCkpt)
   /-- added by the repair of the sliding count window (`#[serde(default)]`) -/
   eventsSinceEmit : Option Nat
-  deriving Repr, Inhabited
+  /-- `window_start_subms_ns` / `last_emit_subms_ns`, added by the repair of the millisecond truncation -/
+  windowStartSub : Nat
+  lastEmitSub : Nat
+  deriving Repr, Inhabited, BEq
 
 def encWC (w : WindowCkpt) : Json :=
   .obj [("events", encList encSE w.events), ("window_start_ms", encOpt .int w.windowStartMs),
         ("last_emit_ms", encOpt .int w.lastEmitMs), ("partitions", encMap encPWC w.partitions),
-        ("events_since_emit", encOpt (fun n : Nat => .int n) w.eventsSinceEmit)]
+        ("events_since_emit", encOpt (fun n : Nat => .int n) w.eventsSinceEmit),
+        ("window_start_subms_ns", .int w.windowStartSub), ("last_emit_subms_ns", .int w.lastEmitSub)]
 
 def decWC : Json → Option WindowCkpt
   | .obj kvs => do
@@ -366,14 +421,17 @@ def decWC : Json → Option WindowCkpt
     let le ← optF kvs "last_emit_ms" decInt
     let ps ← req kvs "partitions" (decMap decPWC)
     let se ← optF kvs "events_since_emit" decNat
-    pure { events := ev, windowStartMs := ws, lastEmitMs := le, partitions := ps, eventsSinceEmit := se }
+    let wsub ← dflt kvs "window_start_subms_ns" decNat 0
+    let lsub ← dflt kvs "last_emit_subms_ns" decNat 0
+    pure { events := ev, windowStartMs := ws, lastEmitMs := le, partitions := ps, eventsSinceEmit := se,
+           windowStartSub := wsub, lastEmitSub := lsub }
   | _ => none
 
 /-- `StackEntryCheckpoint` -/
 structure StackCkpt where
   event : SerEvent
   alias : Option String
-  deriving Repr, Inhabited
+  deriving Repr, Inhabited, BEq
 
 def encStack (s : StackCkpt) : Json := .obj [("event", encSE s.event), ("alias", encOpt .str s.alias)]
 
@@ -395,7 +453,22 @@ structure RunCkpt where
   invalidated : Bool
   pendingNegationCount : Nat
   kleeneEvents : Option (List SerEvent)
-  deriving Repr, Inhabited
+  /-- `and_branches`, added by the repair of the lost AND progress: (branch index, event) -/
+  andBranches : Option (List (Nat × SerEvent))
+  /-- sub-millisecond remainders of the two event-time fields -/
+  startedAtSub : Nat
+  deadlineSub : Nat
+  deriving Repr, Inhabited, BEq
+
+/-- one completed AND branch `(usize, SerializableEvent)`: a two-element array -/
+def encAB (p : Nat × SerEvent) : Json := .arr [.int p.1, encSE p.2]
+
+def decAB : Json → Option (Nat × SerEvent)
+  | .arr [i, j] => do
+    let n ← decNat i
+    let e ← decSE j
+    pure (n, e)
+  | _ => none
 
 def encRun (r : RunCkpt) : Json :=
   .obj [("current_state", .int r.currentState), ("stack", encList encStack r.stack),
@@ -404,7 +477,10 @@ def encRun (r : RunCkpt) : Json :=
         ("event_time_deadline_ms", encOpt .int r.deadlineMs),
         ("partition_key", encOpt encSV r.partitionKey), ("invalidated", .bool r.invalidated),
         ("pending_negation_count", .int r.pendingNegationCount),
-        ("kleene_events", encOpt (encList encSE) r.kleeneEvents)]
+        ("kleene_events", encOpt (encList encSE) r.kleeneEvents),
+        ("and_branches", encOpt (encList encAB) r.andBranches),
+        ("event_time_started_at_subms_ns", .int r.startedAtSub),
+        ("event_time_deadline_subms_ns", .int r.deadlineSub)]
 
 def decRun : Json → Option RunCkpt
   | .obj kvs => do
@@ -417,8 +493,12 @@ def decRun : Json → Option RunCkpt
     let iv ← req kvs "invalidated" decBool
     let pn ← req kvs "pending_negation_count" decNat
     let ke ← optF kvs "kleene_events" (decList decSE)
+    let ab ← optF kvs "and_branches" (decList decAB)
+    let ss ← dflt kvs "event_time_started_at_subms_ns" decNat 0
+    let ds ← dflt kvs "event_time_deadline_subms_ns" decNat 0
     pure { currentState := cs, stack := st, captured := ca, startedAtMs := sa, deadlineMs := dl,
-           partitionKey := pk, invalidated := iv, pendingNegationCount := pn, kleeneEvents := ke }
+           partitionKey := pk, invalidated := iv, pendingNegationCount := pn, kleeneEvents := ke,
+           andBranches := ab, startedAtSub := ss, deadlineSub := ds }
   | _ => none
 
 /-- `SaseCheckpoint` -/
@@ -431,14 +511,17 @@ structure SaseCkpt where
   completed : Nat
   dropped : Nat
   evicted : Nat
-  deriving Repr, Inhabited
+  watermarkSub : Nat
+  maxTimestampSub : Nat
+  deriving Repr, Inhabited, BEq
 
 def encSase (s : SaseCkpt) : Json :=
   .obj [("active_runs", encList encRun s.activeRuns),
         ("partitioned_runs", encMap (encList encRun) s.partitionedRuns),
         ("watermark_ms", encOpt .int s.watermarkMs), ("max_timestamp_ms", encOpt .int s.maxTimestampMs),
         ("total_runs_created", .int s.created), ("total_runs_completed", .int s.completed),
-        ("total_runs_dropped", .int s.dropped), ("total_runs_evicted", .int s.evicted)]
+        ("total_runs_dropped", .int s.dropped), ("total_runs_evicted", .int s.evicted),
+        ("watermark_subms_ns", .int s.watermarkSub), ("max_timestamp_subms_ns", .int s.maxTimestampSub)]
 
 def decSase : Json → Option SaseCkpt
   | .obj kvs => do
@@ -450,8 +533,10 @@ def decSase : Json → Option SaseCkpt
     let d ← req kvs "total_runs_completed" decNat
     let e ← req kvs "total_runs_dropped" decNat
     let f ← req kvs "total_runs_evicted" decNat
+    let ws ← dflt kvs "watermark_subms_ns" decNat 0
+    let ms ← dflt kvs "max_timestamp_subms_ns" decNat 0
     pure { activeRuns := ar, partitionedRuns := pr, watermarkMs := wm, maxTimestampMs := mt,
-           created := c, completed := d, dropped := e, evicted := f }
+           created := c, completed := d, dropped := e, evicted := f, watermarkSub := ws, maxTimestampSub := ms }
   | _ => none
 
 /-- one buffered join entry `(i64, SerializableEvent)`: a two-element array -/
@@ -461,17 +546,42 @@ def decJE : Json → Option (Int × SerEvent)
   | .arr [.int t, j] => (decSE j).map fun e => (t, e)
   | _ => none
 
+/-- one pending expiry `(i64, u32, String, String)`: (expiry ms, sub-ms ns, source, key) -/
+structure QEntry where
+  ms : Int
+  sub : Nat
+  source : String
+  key : String
+  deriving Repr, Inhabited, BEq, DecidableEq
+
+def encQE (q : QEntry) : Json := .arr [.int q.ms, .int q.sub, .str q.source, .str q.key]
+
+def decQE : Json → Option QEntry
+  | .arr [a, b, c, d] => do
+    let ms ← decInt a
+    let sub ← decNat b
+    let s ← decStr c
+    let k ← decStr d
+    pure { ms := ms, sub := sub, source := s, key := k }
+  | _ => none
+
 /-- `JoinCheckpoint` -/
 structure JoinCkpt where
   buffers : List (String × List (String × List (Int × SerEvent)))
   sources : List String
   joinKeys : List (String × String)
   windowMs : Int
-  deriving Repr, Inhabited
+  /-- `last_gc_ms`, `last_gc_subms_ns`, `expiry_queue`: added by the repair of the lost GC bookkeeping -/
+  lastGcMs : Option Int
+  lastGcSub : Nat
+  expiryQueue : Option (List QEntry)
+  deriving Repr, Inhabited, BEq
 
 def encJoin (j : JoinCkpt) : Json :=
   .obj [("buffers", encMap (encMap (encList encJE)) j.buffers), ("sources", encList .str j.sources),
-        ("join_keys", encMap .str j.joinKeys), ("window_duration_ms", .int j.windowMs)]
+        ("join_keys", encMap .str j.joinKeys), ("window_duration_ms", .int j.windowMs),
+        ("last_gc_ms", encOpt .int j.lastGcMs), ("last_gc_subms_ns", .int j.lastGcSub),
+        ("expiry_queue", encOpt (encList encQE) j.expiryQueue)]
 
 def decJoin : Json → Option JoinCkpt
   | .obj kvs => do
@@ -479,7 +589,11 @@ def decJoin : Json → Option JoinCkpt
     let s ← req kvs "sources" (decList decStr)
     let k ← req kvs "join_keys" (decMap decStr)
     let w ← req kvs "window_duration_ms" decInt
-    pure { buffers := b, sources := s, joinKeys := k, windowMs := w }
+    let g ← optF kvs "last_gc_ms" decInt
+    let gs ← dflt kvs "last_gc_subms_ns" decNat 0
+    let q ← optF kvs "expiry_queue" (decList decQE)
+    pure { buffers := b, sources := s, joinKeys := k, windowMs := w, lastGcMs := g, lastGcSub := gs,
+           expiryQueue := q }
   | _ => none
 
 /-- `SourceWatermarkCheckpoint` -/
@@ -487,34 +601,49 @@ structure SrcWmCkpt where
   watermarkMs : Option Int
   maxTimestampMs : Option Int
   oooMs : Int
-  deriving Repr, Inhabited
+  watermarkSub : Nat
+  maxTimestampSub : Nat
+  deriving Repr, Inhabited, BEq
 
 def encSrcWm (s : SrcWmCkpt) : Json :=
   .obj [("watermark_ms", encOpt .int s.watermarkMs), ("max_timestamp_ms", encOpt .int s.maxTimestampMs),
-        ("max_out_of_orderness_ms", .int s.oooMs)]
+        ("max_out_of_orderness_ms", .int s.oooMs), ("watermark_subms_ns", .int s.watermarkSub),
+        ("max_timestamp_subms_ns", .int s.maxTimestampSub)]
 
 def decSrcWm : Json → Option SrcWmCkpt
   | .obj kvs => do
     let w ← optF kvs "watermark_ms" decInt
     let m ← optF kvs "max_timestamp_ms" decInt
     let o ← req kvs "max_out_of_orderness_ms" decInt
-    pure { watermarkMs := w, maxTimestampMs := m, oooMs := o }
+    let ws ← dflt kvs "watermark_subms_ns" decNat 0
+    let ms ← dflt kvs "max_timestamp_subms_ns" decNat 0
+    pure { watermarkMs := w, maxTimestampMs := m, oooMs := o, watermarkSub := ws, maxTimestampSub := ms }
   | _ => none
 
 /-- `WatermarkCheckpoint` -/
 structure WmCkpt where
   sources : List (String × SrcWmCkpt)
   effectiveMs : Option Int
-  deriving Repr, Inhabited
+  effectiveSub : Nat
+  /-- `last_applied_watermark_ms` / `_subms_ns`: added by the repair, filled in by the engine -/
+  lastAppliedMs : Option Int
+  lastAppliedSub : Nat
+  deriving Repr, Inhabited, BEq
 
 def encWm (w : WmCkpt) : Json :=
-  .obj [("sources", encMap encSrcWm w.sources), ("effective_watermark_ms", encOpt .int w.effectiveMs)]
+  .obj [("sources", encMap encSrcWm w.sources), ("effective_watermark_ms", encOpt .int w.effectiveMs),
+        ("effective_watermark_subms_ns", .int w.effectiveSub),
+        ("last_applied_watermark_ms", encOpt .int w.lastAppliedMs),
+        ("last_applied_watermark_subms_ns", .int w.lastAppliedSub)]
 
 def decWm : Json → Option WmCkpt
   | .obj kvs => do
     let s ← req kvs "sources" (decMap decSrcWm)
     let e ← optF kvs "effective_watermark_ms" decInt
-    pure { sources := s, effectiveMs := e }
+    let es ← dflt kvs "effective_watermark_subms_ns" decNat 0
+    let la ← optF kvs "last_applied_watermark_ms" decInt
+    let ls ← dflt kvs "last_applied_watermark_subms_ns" decNat 0
+    pure { sources := s, effectiveMs := e, effectiveSub := es, lastAppliedMs := la, lastAppliedSub := ls }
   | _ => none
 
 /-- `DistinctCheckpoint` (most recent key first) -/
@@ -546,7 +675,7 @@ structure EngineCkpt where
   watermarkState : Option WmCkpt
   distinctStates : List (String × List String)
   limitStates : List (String × (Nat × Nat))
-  deriving Repr, Inhabited
+  deriving Repr, Inhabited, BEq
 
 def encEngine (c : EngineCkpt) : Json :=
   .obj [("version", .int c.version), ("window_states", encMap encWC c.windowStates),
@@ -579,7 +708,7 @@ structure PartialMatchCkpt where
   state : String
   matched : List SerEvent
   startMs : Int
-  deriving Repr, Inhabited
+  deriving Repr, Inhabited, BEq
 
 def encPM (p : PartialMatchCkpt) : Json :=
   .obj [("state", .str p.state), ("matched_events", encList encSE p.matched), ("start_ms", .int p.startMs)]
@@ -608,7 +737,7 @@ structure Ckpt where
   patternStates : List (String × List PartialMatchCkpt)
   metadata : List (String × String)
   contextStates : List (String × EngineCkpt)
-  deriving Repr, Inhabited
+  deriving Repr, Inhabited, BEq
 
 def encCkpt (c : Ckpt) : Json :=
   .obj [("id", .int c.id), ("timestamp_ms", .int c.timestampMs), ("events_processed", .int c.eventsProcessed),
